@@ -59,6 +59,10 @@ type tgen struct {
 	ids    map[uintptr]int
 	nextID int
 	maxD   int
+	// explicit: name every field of the value being rendered, zero ones too (history ops: the new
+	// value of a by-value struct field). noTime: generate zero times only (the way back loses times).
+	explicit bool
+	noTime   bool
 }
 
 func newTgen(g *Gen, maxD int) *tgen {
@@ -107,7 +111,7 @@ func (t *tgen) genPtr(pt reflect.Type, depth int) reflect.Value {
 
 func (t *tgen) genValue(ty reflect.Type, depth int) reflect.Value {
 	if ty == timeType {
-		if t.rint(2) == 0 {
+		if t.noTime || t.rint(2) == 0 {
 			return reflect.ValueOf(time.Time{})
 		}
 		return reflect.ValueOf(time.Unix(int64(t.rint(2000000000)), 0).UTC())
@@ -156,7 +160,11 @@ func (t *tgen) genValue(ty reflect.Type, depth int) reflect.Value {
 			return v
 		}
 		if ty.NumMethod() == 0 {
-			switch t.rint(5) {
+			k := t.rint(5)
+			if k == 1 && t.noTime {
+				k = 0
+			}
+			switch k {
 			case 0:
 				v.Set(reflect.ValueOf(t.rint(2) == 0))
 			case 1:
@@ -173,7 +181,7 @@ func (t *tgen) genValue(ty reflect.Type, depth int) reflect.Value {
 		var impl []reflect.Type
 		for i := range togoRoots {
 			pt := reflect.TypeOf(togoRoots[i].mk())
-			if pt.Implements(ty) {
+			if pt.Implements(ty) && !togoRoots[i].fixedOnly {
 				impl = append(impl, pt)
 			}
 		}
@@ -436,17 +444,32 @@ func (t *tgen) fieldsOf(v reflect.Value, st reflect.Type, prefix []int, paths ma
 			if registered && (!flat || t.rint(100) < 30) {
 				t.g.Count("gen embedded-as-nested-record")
 				*pend = append(*pend, pendField{key, fv, true})
-			} else if flat {
-				t.g.Count("gen embedded-flattened")
+			} else {
+				if flat {
+					t.g.Count("gen embedded-flattened")
+				} else {
+					// an unregistered embedded struct with a field no promoted key reaches
+					// (shadowed by a later declaration): that field cannot be written from this
+					// record, so the generating value must not hold anything there
+					t.g.Count("gen embedded-flattened (unreachable fields zeroed)")
+				}
 				t.fieldsOf(fv, f.Type, path, paths, pend)
 			}
 			continue
 		}
-		if fv.IsZero() && t.rint(100) < 70 {
+		if fv.IsZero() && !t.explicit && t.rint(100) < 70 {
 			continue
 		}
 		if p, ok := resolveKey(paths, key); !ok || !samePath(p, path) {
-			continue // shadowed and unreachable from here
+			// shadowed and unreachable from here
+			if !fv.IsZero() {
+				if fv.CanSet() {
+					fv.Set(reflect.Zero(fv.Type()))
+				} else {
+					t.g.Count("gen BUG unreachable non-zero field not settable")
+				}
+			}
+			continue
 		}
 		spell := key
 		if f.Tag.Get("json") == "" && t.rint(100) < 40 {
@@ -486,6 +509,9 @@ func togoGen(g *Gen) {
 	// 1. exhaustive grid: every field of every root type x every value kind sample
 	for ri := range togoRoots {
 		r := &togoRoots[ri]
+		if r.fixedOnly {
+			continue
+		}
 		st := reflect.TypeOf(r.mk()).Elem()
 		paths := map[string][]int{}
 		jsonPaths(st, nil, paths)
@@ -527,7 +553,7 @@ func togoGen(g *Gen) {
 		// string field set (the field tables of two structs can fit each other by accident)
 		for oi := range togoRoots {
 			o := &togoRoots[oi]
-			if o == r {
+			if o == r || o.fixedOnly {
 				continue
 			}
 			g.Emit("%s", togoLine("echo", r, &tnode{tok: "H", tn: o.name, id: 1}, "-"))
@@ -551,15 +577,12 @@ func togoGen(g *Gen) {
 		nConv, nEcho, nBad = 12000, 4000, 6000
 	}
 	for i := 0; i < nConv+nEcho+nBad; i++ {
-		r := &togoRoots[g.Rng.Intn(len(togoRoots))]
-		if g.Rng.Intn(3) == 0 {
-			r = &togoRoots[1] // vnode: the type with every kind
-		}
+		r := pickRoot(g)
 		t := newTgen(g, 1+g.Rng.Intn(3))
 		root := reflect.New(reflect.TypeOf(r.mk()).Elem())
 		t.genStructInto(root.Elem(), 0)
+		term := t.recordOf(root.Elem()) // may zero fields that no key of the record can reach
 		exp := canonGo(root)
-		term := t.recordOf(root.Elem())
 		var toks []string
 		term.emit(&toks)
 		switch {
@@ -640,7 +663,7 @@ func togoGen(g *Gen) {
 				}
 				structs, _ := worldOf(reflect.TypeOf(r.mk()).Elem())
 				for _, s := range structs {
-					if n := togoRegOfStruct[s]; n != "" && n != victim.tn {
+					if n := togoRegOfStruct[s]; n != "" && n != victim.tn && !togoByName[n].fixedOnly {
 						names = append(names, n)
 					}
 				}
@@ -676,9 +699,29 @@ func togoGen(g *Gen) {
 		g.Emit("%s", togoLine("conv", vn, &tnode{tok: "H", tn: "vnode", id: 1, keys: ks, kids: []*tnode{leaf(), atom("R2")}}, "-"))
 		g.Count("fixed shared-record pointer+interface")
 	}
+	// 3b. a struct type with an embedded POINTER (could not be made into a record before fix C10-06)
+	vpe := togoByName["vpe"]
+	g.Emit("%s", togoLine("conv", vpe, &tnode{tok: "H", tn: "vpe", id: 1, keys: []string{"k122"}, kids: []*tnode{atom("i4")}}, "-"))
+	g.Count("fixed embedded-pointer type")
 	// 4. the keyed known finding: a time does not come back
 	w := togoByName["weather"]
 	g.Emit("%s", togoLine("echo", w, &tnode{tok: "H", tn: "weather", id: 1, keys: []string{"k116.105.109.101", "k115.105.122.101"}, kids: []*tnode{atom("t1600000000"), atom("i12")}}, "-"))
+}
+
+// a root for the random streams: the types with every kind / the deepest embedding more often
+func pickRoot(g *Gen) *togoRoot {
+	switch g.Rng.Intn(6) {
+	case 0:
+		return togoByName["vnode"]
+	case 1:
+		return togoByName[[]string{"vd0", "vwide", "vd0", "vd2"}[g.Rng.Intn(4)]]
+	}
+	for {
+		r := &togoRoots[g.Rng.Intn(len(togoRoots))]
+		if !r.fixedOnly {
+			return r
+		}
+	}
 }
 
 func hasNonZeroTime(v reflect.Value) bool {
